@@ -19,6 +19,7 @@ is used as oracle; known defects are not special-cased.
 from common import *
 import c04_lib as L
 import multiprocessing as mp
+import tempfile, shutil
 
 M0 = ['m = mx.new_model("M")']
 
@@ -86,7 +87,7 @@ def block(lines, *tags):
 
 def case(group, key, blocks, eval_first=False, random=False):
     return {"group": group, "key": (group,) + tuple(key) + (("eval-first",) if eval_first else ()), "blocks": blocks,
-            "eval_first": eval_first, "random": random}
+            "eval_first": eval_first, "random": random, "chains": True}
 
 
 def doc_literal_styles(doc):
@@ -278,6 +279,16 @@ def gen_inheritance(tier):
     yield from hand(g, ("sub-space-allow-none",), ['B = m.new_space("B")', 'B.new_cells("f", formula="lambda x: None")', "B.allow_none = True",
                                                   'D = m.new_space("D", bases=B)', 'E = m.new_space("E", bases=B)', "E.allow_none = False"],
                     "inherit:single", "space-allow_none")
+    # the base is edited after the sub space was derived
+    for tag, edit in (("allow_none-true", ["B.f.allow_none = True", "B.k.allow_none = True"]), ("allow_none-false", ["m.allow_none = True", "B.f.allow_none = False"]),
+                      ("uncached-lambda", ["B.f.is_cached = False"]), ("uncached-def", ["B.k.is_cached = False"]), ("doc", ['B.f.doc = "late doc"', 'B.k.doc = "late doc"']),
+                      ("formula", ['B.f.formula = "lambda x: None"', 'B.k.formula = "def k(x):\\n    return None"']),
+                      ("space-allow_none", ["B.allow_none = True", 'B.f.formula = "lambda x: None"']),
+                      ("new-cells", ['B.new_cells("late", formula="lambda x: None")', "B.late.allow_none = True"]),
+                      ("ref", ["B.x = 1", "B.x = 2", "B.y = B.f"]), ("rename", ['B.f.rename("f2")']), ("input", ["B.f[1] = 5"])):
+        more = {"uncached-lambda": ("cells:lambda", "uncached"), "uncached-def": ("cells:def", "uncached")}.get(tag, ())
+        yield from hand(g, ("base-edited-after-derivation", tag), B + ['D = m.new_space("D", bases=B)'] + edit,
+                        "inherit:single", "base-edit-after-derive:" + tag, *more)
     # references through inheritance
     for mode in ("auto", "absolute", "relative"):
         yield from hand(g, ("base-objref", mode), B + ['B.set_ref("r", B.f, refmode=%r)' % mode, 'B.new_cells("use", formula="lambda: r(1)")',
@@ -600,21 +611,30 @@ def shrink(c, fails):
     """Remove feature blocks one at a time while the same check keeps failing (random cases only)."""
     target = sorted(check_signature(fails))[0]
     blocks = list(c["blocks"])
+    st, f = L.evaluate(flat_lines(blocks), c["eval_first"], light=True)
+    light = st == "ok" and target in check_signature(f)
     changed = True
     while changed:
         changed = False
         for i in range(len(blocks) - 1, 0, -1):
             trial = blocks[:i] + blocks[i + 1:]
-            st, f = L.evaluate(flat_lines(trial), c["eval_first"])
+            st, f = L.evaluate(flat_lines(trial), c["eval_first"], light=light)
             if st == "ok" and target in check_signature(f):
-                blocks, fails, changed = trial, f, True
+                blocks, changed = trial, True
+    if light or True:
+        st, fails = L.evaluate(flat_lines(blocks), c["eval_first"])
     return blocks, fails
 
 
+DEADLINE = [None]     # absolute time set before the pool forks: tasks started later are skipped (clean stop, no killed workers)
+
+
 def worker(c):
+    if DEADLINE[0] and time.time() > DEADLINE[0]:
+        return None
     reset()
     groups = []           # [(blocks, status, fails)]
-    st, fails = L.evaluate(flat_lines(c["blocks"]), c["eval_first"])
+    st, fails = L.evaluate(flat_lines(c["blocks"]), c["eval_first"], chains=c["chains"])
     if c["random"] and fails:
         rest = list(c["blocks"])
         for _ in range(4):
@@ -652,8 +672,9 @@ def report(res, key, lines, ctags, fails):
                  script=L.make_script(lines), case=key)
 
 
-GENERATORS = [gen_cells_attrs, gen_docs_at, gen_refs, gen_objref_matrix, gen_inheritance, gen_params, gen_inputs, gen_syntax,
-              gen_model_level, gen_kitchen]
+GENERATORS = [gen_kitchen, gen_inheritance, gen_params, gen_model_level, gen_inputs, gen_docs_at, gen_cells_attrs, gen_refs,
+              gen_objref_matrix, gen_syntax]
+PRODUCT_GROUPS = {"cells-attrs", "refs", "objref-matrix", "syntax", "docs-at"}
 
 
 def run(res, tier, seed):
@@ -663,7 +684,7 @@ def run(res, tier, seed):
                  "objects / modelx objects) x {model, space, nested space} x {assignment, auto, absolute, relative}; object references "
                  "holder x target x mode over a 3-level tree; 40 inheritance recipes; 60 parameter-formula / ItemSpace-input recipes; "
                  "input arity 0-3 x formula form x value kind, key kinds; 36 formula texts x 4 followers x flags; model-level properties; "
-                 "both containers, 5 reads and 4 writes per case (chains dir->dir, zip->zip, dir->zip)"
+                 "both containers, up to 7 reads and 6 writes per case (chains dir->dir, zip->zip, dir->zip, after evaluation; quick: second-generation reads only for the hand-written groups)"
                  + ("; plus seeded random combinations of 3-7 features" if tier == "thorough" else "; reduced products (quick)"))
     res.rule = ("one case = one recipe (scaffold + one feature block, or hand-written recipe) x evaluate-before-writing flag; a case is "
                 "non-trivial when the API built the recipe (then every clause of the contract was evaluated on it); distinct = distinct "
@@ -672,21 +693,30 @@ def run(res, tier, seed):
     cases = []
     for gen in GENERATORS:
         cases.extend(gen(tier))
+    if tier == "quick":         # the big products run the second-generation chains only in the thorough tier
+        for c in cases:
+            if c["group"] in PRODUCT_GROUPS:
+                c["chains"] = False
     if tier == "thorough":      # every systematic recipe also with evaluation before the first write
         cases += [dict(c, eval_first=True, key=c["key"] + ("eval-first",)) for c in cases if not c["eval_first"]]
     nsys = len(cases)
     if tier == "thorough":
-        for i in range(1500):
+        for i in range(700):
             cases.append(random_case(res.rng, i))
-    soft_deadline = res.budget_s * 0.85
+    soft_deadline = res.budget_s * 0.8
     nproc = max(2, min(12, (os.cpu_count() or 4) - 2))
     unbuildable = []
     done = 0
     res.exhaustive = True
+    L.BASE = tempfile.mkdtemp(prefix="c04_")
+    DEADLINE[0] = res.t0 + soft_deadline
     ctx = mp.get_context("fork")
     pool = ctx.Pool(nproc)
     try:
-        for c, (key, st, groups) in zip(cases, pool.imap(worker, cases, chunksize=3)):
+        for c, out in zip(cases, pool.imap(worker, cases, chunksize=3)):
+            if out is None:
+                continue
+            key, st, groups = out
             done += 1
             built = st == "ok"
             res.count(key, nontrivial=built)
@@ -697,15 +727,15 @@ def run(res, tier, seed):
                     report(res, key, lines, ctags, fails)
             if done % 400 == 1:
                 res.sample({"key": key, "recipe": flat_lines(c["blocks"])})
-            if time.time() - res.t0 > soft_deadline:
-                if done < nsys:
-                    res.exhaustive = False
-                res.notes.append("stopped by the time budget after %d of %d cases (%d systematic)" % (done, len(cases), nsys))
-                pool.terminate()
-                break
+        if done < len(cases):
+            if done < nsys:
+                res.exhaustive = False
+            res.notes.append("stopped by the time budget after %d of %d cases (%d systematic)" % (done, len(cases), nsys))
+        pool.close()
     finally:
         pool.terminate()
         pool.join()
+        shutil.rmtree(L.BASE, ignore_errors=True)
     reasons = {}
     for key, st in unbuildable:
         reasons.setdefault((key[0], st[13:70]), []).append(key)
